@@ -340,7 +340,7 @@ class Tuner(Client):
         if role in ("r", "loss"):
             a, b = 0.0, 1.0
         else:
-            a, b = 0.0, 6.3
+            a, b = -7.0, 7.0
         if lo is not None:
             a = max(a, lo)
         if hi is not None:
@@ -356,9 +356,18 @@ class Tuner(Client):
         role = r.choice(["r", "phi", "loss", "phi", "r"])
         v = self.valid_value(role, None, None)
         o = {"op": "new_param", "value": v, "out": w.new_id("p"), "role": role}
-        if r.random() < 0.4:
+        x = r.random()
+        if x < 0.3:
             o["bounds"] = [round(v - r.choice([0, 0.2, 1]), 4),
                            round(v + r.choice([0, 0.2, 1]), 4)]
+        elif x < 0.55:
+            # bounds with exact zeros / integers: boundary cases of the checks
+            lo, hi = r.choice([(0, 1), (0, 0), (-1, 0), (0, 7), (-7, 0)])
+            if role in ("r", "loss"):
+                lo, hi = r.choice([(0, 1), (0, 0), (0, 0.5)])
+            v = r.choice([lo, hi, round(r.uniform(lo, hi), 3)])
+            o["value"] = v
+            o["bounds"] = [lo, hi]
         if r.random() < 0.4:
             o["label"] = "p%d" % o["out"]
         return o
